@@ -63,7 +63,7 @@ func init() {
 	reg("C04", &propCfg{Test: "TestC04", Quick: 2000, Thorough: 40000})
 	reg("C05", &propCfg{Test: "TestC05", Quick: 200, Thorough: 2400, Level: "fault_enumeration",
 		Assumptions: []string{"crash model: un-synced writes reach the disk as any subset of 4096-byte blocks, file length anywhere between the synced length and the highest applied block, directory operations ordered and durable; with NoSync process-kill only"}})
-	reg("C06", &propCfg{Test: "TestC06", Quick: 320, Thorough: 1000, Level: "fault_enumeration"})
+	reg("C06", &propCfg{Test: "TestC06", Quick: 320, Thorough: 560, Level: "fault_enumeration"})
 	reg("C07", &propCfg{Test: "TestC07", Quick: 1500, Thorough: 24000})
 	reg("C08", &propCfg{Test: "TestC08", Quick: 2500, Thorough: 50000})
 	reg("C09", &propCfg{Test: "TestC09", Quick: 12000, Thorough: 200000, Fuzz: "FuzzC09", FuzzTime: 120 * time.Second})
